@@ -5,6 +5,11 @@ import CnbVerif.Props.C12
 #print axioms CnbVerif.C12.failure_is_reported
 #print axioms CnbVerif.C12.failure_returns_error
 #print axioms CnbVerif.C12.modelled_operations_report_failures
+#print axioms CnbVerif.C12.cached_migrate_fault_propagates
+#print axioms CnbVerif.C12.cached_migrate_success_only_fault_free
+#print axioms CnbVerif.C12.trait_migrate_fault_propagates
+#print axioms CnbVerif.C12.trait_migrate_success_only_fault_free
+#print axioms CnbVerif.C12.handle_layer_any_callbacks_success_only_fault_free
 #print axioms CnbVerif.C12.tolerate_swallows_only_not_found
 #print axioms CnbVerif.C12.tolerant_calls_are_deletes
 #print axioms CnbVerif.C12.refines_replaceMeta
